@@ -29,8 +29,20 @@ def scenario(rng, qk):
             t = rng.choice(sorted(s.alive))
             pad = min(qsys.pads(rng, cap, bounded), limit - qsys.HDR)
             s.log(t, rng.choice(s.loggers), pad=max(0, pad))
-        elif r < 0.70 and len(s.alive) > 1:
+        elif r < 0.66 and len(s.alive) > 1:
             s.join(rng.choice(sorted(s.alive)))          # thread exits, possibly with statements still queued
+        elif r < 0.70 and len(s.alive) > 1:
+            # an already registered thread logs and exits while the backend is between the emptiness check of an idle poll
+            # and its context clean-up
+            t = rng.choice(sorted(s.alive))
+            for u in sorted(s.alive):
+                s.op(f"T {u} go")
+            s.op("B drain")
+            s.op("B pollf")
+            s.op("B until:IDLE3")
+            s.log(t, rng.choice(s.loggers), pad=rng.randint(0, 16))
+            s.join(t)
+            s.op("B until:-")
         elif r < 0.74 and len(s.threads) < 6:
             s.start(f"t{len(s.threads)}")
         elif r < 0.78:
